@@ -1,7 +1,7 @@
 """C06 Event results are reproducible and independent of history and thread order.
 
 TLC (spec/Histories.tla) enumerates EVERY history of operations Run(ev) / Abort(ev,k)+reset /
-WarmUp up to a length over 3 events x 3 abort points; each history is executed by harness/vhist
+Throw(ev,k) (a user action throws inside the k-th step)+reset / WarmUp up to a length over 3 events x 3 abort points; each history is executed by harness/vhist
 on one real Stepper state under a configuration cycled through the 7 re-indexing track orders
 (+ none), action_times and the status checker, and both slot layouts; TLC then validates that
 every observation of the same (event, primaries, slots, layout, physics) key carries a
@@ -18,7 +18,7 @@ REINDEX = ["none", "reindex_shuffle", "reindex_status", "reindex_particle_type",
 def histories(maxlen):
     cfg = os.path.join(vlib.BUILDROOT, "work", "C06", "Histories_gen.cfg")
     with open(cfg, "w") as fh:
-        fh.write("SPECIFICATION Spec\nCONSTANTS\n  Events = {0, 1, 2}\n  AbortPoints = {1, 2, 5}\n  MaxLen = %d\n"
+        fh.write("SPECIFICATION Spec\nCONSTANTS\n  Events = {0, 1, 2}\n  AbortPoints = {1, 2, 5}\n  ThrowPoints = {1, 2}\n  MaxLen = %d\n"
                  "  Configs = {\"c\"}\nINVARIANT CleanBeforeRun\nINVARIANT Emit\nCHECK_DEADLOCK FALSE\n" % maxlen)
     r = vlib.tlc("Histories", cfg, workers=1, timeout=600, heap="2g")
     if r.code != 0:
